@@ -45,8 +45,19 @@ fn writer(tier: &str) -> Vec<String> {
     v
 }
 
+fn holder(tier: &str) -> Vec<String> {
+    let mut progs = vec!["S1.S2.GG", "S1.GI.G", "S1S2.GG", "S1.S2G", "S1.IG", "S1.S2.G", "S1.G.I", "S1G.S2G", "S1.S2"];
+    if tier == "thorough" {
+        progs.extend(["S1.S2.GIG", "S1G.S2G.GI", "S1.GIG.IG", "S1S2.GI.IG", "S1.S2.S1G", "S1I.S2G.GI"]);
+    }
+    let mut v: Vec<String> = progs.iter().map(|p| format!("holder:prog={}", p)).collect();
+    v.push(format!("holderseq:depth={}", if tier == "thorough" { 6 } else { 4 }));
+    v
+}
+
 pub fn instances(prop: &str, tier: &str) -> Vec<String> {
     match prop {
+        "C18" => holder(tier),
         "C05" | "C06" | "C07" | "C19" => writer(tier),
         _ => vec![],
     }
